@@ -1,12 +1,260 @@
 package props
 
 import (
+	"encoding/json"
+	"fmt"
+	"strings"
+	"time"
+
+	"pgregory.net/rapid"
+
 	. "verif/harness/eng"
 )
 
+// C10: well-formed programs are accepted however providers are grouped or
+// ordered.  A case is a well-formed base program put through 1-4 drawn
+// meaning-preserving transformations; the reference model (which is
+// order- and grouping-independent) supplies the expected wiring of every
+// variant, so equal wiring across variants follows from each variant matching
+// the model.
+
+func transformC10(t *rapid.T, s *Spec) []string {
+	x := &mutCtx{t: t, s: s}
+	var applied []string
+	accepts := func(c *Spec) bool {
+		c.SetName("x")
+		m := NewModel(c)
+		for k := range c.Injectors {
+			v := m.Judge(k)
+			if !v.Accept || v.PartialFields {
+				return false
+			}
+		}
+		return true
+	}
+	n := x.intn(1, 4, "ntransforms")
+	for i := 0; i < n; i++ {
+		c := s.Clone()
+		cx := &mutCtx{t: t, s: c}
+		kind := x.pick([]string{"permute", "permute", "wrap", "wrap", "flatten", "flatten", "moveset", "aliasset", "joint", "splitinline"}, "transform")
+		switch kind {
+		case "permute":
+			for _, l := range argLists(c) {
+				if len(*l) > 1 {
+					*l = rapid.Permutation(*l).Draw(t, "perm")
+				}
+			}
+		case "wrap":
+			// wrap some direct Build items of one injector into a new set
+			k := cx.intn(0, len(c.Injectors)-1, "inj")
+			in := &c.Injectors[k]
+			var keep, moved []Ref
+			for _, a := range in.Args {
+				if cx.pct(50, "wrapthis") {
+					moved = append(moved, a)
+				} else {
+					keep = append(keep, a)
+				}
+			}
+			if len(moved) == 0 {
+				continue
+			}
+			if cx.pct(50, "inline") {
+				keep = append(keep, RInline(moved))
+			} else {
+				c.Sets = append(c.Sets, Set{Pkg: 0, Name: cx.fresh("Grp"), Args: moved, AliasOf: -1})
+				keep = append(keep, RSet(len(c.Sets)-1))
+			}
+			in.Args = keep
+		case "flatten":
+			// replace a set reference by its members
+			lists := argLists(c)
+			li := cx.intn(0, len(lists)-1, "list")
+			l := lists[li]
+			for ai, a := range *l {
+				var members []Ref
+				if a.IsInline() {
+					members = a.Inline
+				} else if a.Set >= 0 {
+					si := a.Set
+					for c.Sets[si].AliasOf >= 0 {
+						si = c.Sets[si].AliasOf
+					}
+					// members must be nameable from the list's package
+					if c.Sets[si].Pkg != listPkg(c, li) && listPkg(c, li) != 0 {
+						continue
+					}
+					members = c.Sets[si].Args
+				} else {
+					continue
+				}
+				nl := append(append([]Ref{}, (*l)[:ai]...), members...)
+				nl = append(nl, (*l)[ai+1:]...)
+				*l = nl
+				break
+			}
+		case "moveset":
+			if len(c.Sets) == 0 {
+				continue
+			}
+			si := cx.intn(0, len(c.Sets)-1, "set")
+			// lowest package that still lets every referrer import the set
+			lo := 0
+			for sj := range c.Sets {
+				if c.Sets[sj].AliasOf == si && c.Sets[sj].Pkg > lo {
+					lo = c.Sets[sj].Pkg
+				}
+			}
+			var scan func(rs []Ref, pkg int)
+			scan = func(rs []Ref, pkg int) {
+				for _, r := range rs {
+					if r.Set == si && pkg > lo {
+						lo = pkg
+					}
+					if r.IsInline() {
+						scan(r.Inline, pkg)
+					}
+				}
+			}
+			for sj := range c.Sets {
+				scan(c.Sets[sj].Args, c.Sets[sj].Pkg)
+			}
+			if lo > c.Sets[si].Pkg {
+				continue
+			}
+			c.Sets[si].Pkg = cx.intn(lo, c.Sets[si].Pkg, "newpkg")
+			c.Sets[si].Name = cx.fresh("Moved")
+		case "aliasset":
+			if len(c.Sets) == 0 {
+				continue
+			}
+			si := cx.intn(0, len(c.Sets)-1, "set")
+			c.Sets = append(c.Sets, Set{Pkg: 0, Name: cx.fresh("Also"), AliasOf: si})
+			ni := len(c.Sets) - 1
+			// injectors refer to the alias instead
+			for k := range c.Injectors {
+				for ai, a := range c.Injectors[k].Args {
+					if a.Set == si {
+						c.Injectors[k].Args[ai] = RSet(ni)
+					}
+				}
+			}
+		case "joint":
+			c.JointSets = !c.JointSets
+		case "splitinline":
+			// an inline set around every direct item of one injector
+			k := cx.intn(0, len(c.Injectors)-1, "inj")
+			in := &c.Injectors[k]
+			for ai, a := range in.Args {
+				if a.Item >= 0 && c.Items[a.Item].Kind != "bind" {
+					in.Args[ai] = RInline([]Ref{a})
+				}
+			}
+		}
+		if accepts(c) {
+			*s = *c
+			applied = append(applied, kind)
+		}
+	}
+	return applied
+}
+
+func genC10() *rapid.Generator[*Spec] {
+	return rapid.Custom(func(t *rapid.T) *Spec {
+		s := GenWF(WFOpts{NoFaults: true, Names: 20}).Draw(t, "base")
+		applied := transformC10(t, s)
+		s.Note = strings.TrimSpace(s.Note + " C10 " + strings.Join(applied, "+"))
+		refreshPlan(s)
+		return s
+	})
+}
+
+func judgeC10(c *Ctx, e *ProgEval, count bool) *Fail {
+	if f := judgeC10Accept(c, e, count); f != nil {
+		return f
+	}
+	if !wfGate(c, e) || !e.Accepted() {
+		return nil
+	}
+	if f := judgeC02(c, e, false); f != nil {
+		f.Kind = "C10 wiring of a regrouped/reordered variant differs from the reference: " + f.Kind
+		return f
+	}
+	if count {
+		i := strings.Index(e.Spec.Note, "C10")
+		tr := ""
+		if i >= 0 {
+			tr = strings.TrimSpace(e.Spec.Note[i+3:])
+		}
+		for _, k := range strings.Split(tr, "+") {
+			if k != "" {
+				c.Class("transform=" + k)
+			}
+		}
+		depth := 0
+		var walk func(rs []Ref, d int)
+		walk = func(rs []Ref, d int) {
+			if d > depth {
+				depth = d
+			}
+			for _, r := range rs {
+				if r.IsInline() {
+					walk(r.Inline, d+1)
+				} else if r.Set >= 0 {
+					si := r.Set
+					for e.Spec.Sets[si].AliasOf >= 0 {
+						si = e.Spec.Sets[si].AliasOf
+					}
+					walk(e.Spec.Sets[si].Args, d+1)
+				}
+			}
+		}
+		kinds := map[string]bool{}
+		for _, it := range e.Spec.Items {
+			kinds[it.Kind] = true
+		}
+		for _, in := range e.Spec.Injectors {
+			walk(in.Args, 0)
+		}
+		c.Class(fmt.Sprintf("nesting=%d", depth))
+		if depth >= 2 && (kinds["bind"] || kinds["struct"]) {
+			c.Nontrivial(e.Spec.Hash())
+		}
+	}
+	return nil
+}
+
 func init() {
-	wfProperty("C10", "exploration",
-		"WF generator output (programs the reference model accepts: one source per type, acyclic, complete, every direct Build item used, valid signatures, bindings co-located with a provider of their concrete type) must be accepted by `wire gen`.",
-		func(c *Ctx) WFOpts { return WFOpts{NoFaults: true} },
-		func(c *Ctx) int { return c.Pick(300, 1500) }, judgeC10Accept, wfAssume)
+	Register(&Property{
+		ID: "C10", Level: "exploration", Assumptions: wfAssume,
+		Rule: "a WF base program (one source per type, acyclic, complete, every direct Build item used, valid signatures, bindings co-located with a provider of their concrete type; 20% under adversarial names) put through 1-4 drawn meaning-preserving transformations: permutation of every wire.Build/wire.NewSet argument list, wrapping direct items into a new named or inline set, flattening a set reference into its members, moving a set to another package, referring to a set through an alias variable, declaring the sets of a package in one multi-name var spec, wrapping each direct item in its own inline set; a transformation is kept only if the reference model still accepts (bindings stay with their concrete type, unused items stay out of the direct Build arguments). Oracle: every variant is accepted by `wire gen`, compiles, and its executed wiring equals the designated sources of the (order- and grouping-independent) reference model, hence the wiring is equal across variants. Non-trivial = variant with >=2 nesting levels and a binding or struct provider; distinct by program hash.",
+		Shards: func(tier string) int {
+			if tier == "thorough" {
+				return 12
+			}
+			return 4
+		},
+		Timeout: func(tier string) time.Duration {
+			if tier == "thorough" {
+				return 120 * time.Minute
+			}
+			return 25 * time.Minute
+		},
+		Run: func(c *Ctx) {
+			n := 0
+			Batched(c, "C10", c.Pick(300, 1500), time.Duration(c.Pick(90, 300))*time.Second,
+				func(t *rapid.T) *Spec { return genC10().Draw(t, "program") },
+				specKey, evalWF(c),
+				func(s *Spec, e *ProgEval) *Fail {
+					n++
+					if n%50 == 1 {
+						sampleWF(c, e)
+					}
+					return judgeC10(c, e, true)
+				})
+		},
+		ReplayCase: func(c *Ctx, kind string, raw json.RawMessage) *Fail {
+			return replaySpec(c, raw, judgeC10)
+		},
+	})
 }
